@@ -534,7 +534,30 @@ def main():
     recs = []
     try:
         with cf.ThreadPoolExecutor(max(1, a.jobs)) as ex:
-            futs = {ex.submit(run_obligation, o, a.repo, scratch, a.keep): o for o in obls}
+            # memory-aware admission: obligations that ask for more than the default limit reserve that much of a budget
+            # (85% of RAM) before they start, so that two 24-40 GB solver runs are never in flight together
+            import threading
+            try:
+                total_gb = int(open("/proc/meminfo").readline().split()[1]) / 1048576.0
+            except Exception:
+                total_gb = 32.0
+            budget = {"free": max(8.0, total_gb * 0.85)}
+            cv = threading.Condition()
+
+            def admitted(o):
+                need = float(o.mem_gb) if (o.mem_gb or 0) > 12 else 2.5
+                need = min(need, max(8.0, total_gb * 0.85))
+                with cv:
+                    while budget["free"] < need:
+                        cv.wait()
+                    budget["free"] -= need
+                try:
+                    return run_obligation(o, a.repo, scratch, a.keep)
+                finally:
+                    with cv:
+                        budget["free"] += need
+                        cv.notify_all()
+            futs = {ex.submit(admitted, o): o for o in obls}
             done = 0
             for f in cf.as_completed(futs):
                 o = futs[f]
